@@ -152,6 +152,16 @@ def rt(ctx, tier_override=None, tag="rt", extra=()):
         nm, md = common.diff_lines(mo, os.path.join(out_dir, "laym_expected.txt"), limit=1000)
     else:
         nm, md = 0, []
+    # 4b. how many of these streams satisfy the premise of C08_layout_model_balanced_partial (clean_run), and the
+    # conclusion (the model's output reads as a balanced bracket word); `clean unbalanced` would contradict the theorem
+    cin = os.path.join(out_dir, "layc_in.txt")
+    with open(os.path.join(out_dir, "laym_in.txt")) as fi, open(cin, "w") as fo:
+        for line in fi:
+            fo.write("C" + line[1:])
+    res["clean_counts"] = {}
+    if ctx.run_model(model, cin, os.path.join(out_dir, "layc_out.txt")):
+        for l in common.read_lines(os.path.join(out_dir, "layc_out.txt")):
+            res["clean_counts"][l] = res["clean_counts"].get(l, 0) + 1
     mc = common.read_lines(os.path.join(out_dir, "laym_cases.txt"))
     res["laym_ran"], res["laym_n"] = ok and nm == len(mc), nm
     res["laym_diffs"] = [(i, a, b, mc[i] if i < len(mc) else "?") for (i, a, b) in md]
@@ -272,7 +282,16 @@ def report_rt(ctx, res, record=True):
             "correspondence:layout-model", "correspondence", res["laym_ran"] and not md,
             "model of layout.rs vs gluon_parser layout on %d token streams, %d disagreements%s"
             % (res["laym_n"], len(md), ("; first: %s" % json.dumps(_case_of(md[0][3]))[:300]) if md else "")))
-        ctx.coverage["ties"]["layout-model"] = {"streams": res["laym_n"], "disagreements": len(md)}
+        cc = res.get("clean_counts", {})
+        ctx.coverage["ties"]["layout-model"] = {
+            "streams": res["laym_n"], "disagreements": len(md),
+            "clean_run_and_balanced": cc.get("clean balanced", 0), "unclean_runs": sum(v for k, v in cc.items() if k.startswith("unclean")),
+            "clean_but_unbalanced (would contradict C08_layout_model_balanced_partial)": cc.get("clean unbalanced", 0),
+            "counts": cc}
+        ctx.obligations.append(common.Obligation(
+            "consistency:layout-model-balanced", "correspondence", bool(cc) and cc.get("clean unbalanced", 0) == 0 and cc.get("clean not-ok", 0) + cc.get("clean balanced", 0) > 0,
+            "premise clean_run holds on %d of %d real token streams (all of them balanced, as proved); %d streams are not clean"
+            % (cc.get("clean balanced", 0) + cc.get("clean not-ok", 0), sum(cc.values()), sum(v for k, v in cc.items() if k.startswith("unclean")))))
         ctx.coverage["traces_validated_against_impl"] = ctx.coverage.get("traces_validated_against_impl", 0) + res["laym_n"]
     return nviol
 
@@ -305,7 +324,7 @@ def run(ctx):
     res = rt(ctx)
     rt_viol = 0
     if res is None:
-        for nm in ("correspondence:roundtrip", "validator:spans", "validator:layout", "correspondence:layout-model"):
+        for nm in ("correspondence:roundtrip", "validator:spans", "validator:layout", "correspondence:layout-model", "consistency:layout-model-balanced"):
             ctx.obligations.append(common.Obligation(nm, "correspondence", False, "could not run: %s" % getattr(ctx, "build_error", getattr(ctx, "harness_crash", "?"))[:300]))
     else:
         rt_viol = report_rt(ctx, res)
